@@ -162,15 +162,25 @@ def mk_event(r, i, hostile_id=False):
     return (eid, ms, lat, lon, dep, mag)
 
 
-def ex_encoding(ctx, cats, placeholders, header, spelling, full=True):
+def ex_encoding(ctx, cats, placeholders, header, spelling, full=True, line_end="crlf"):
     cats = [[tuple(e) for e in c] for c in cats]
     tmp = tempfile.mkdtemp(prefix="c12-", dir=os.environ.get("VERIF_TMP", "/var/tmp"))
     path = os.path.join(tmp, "forecast.csv")
     try:
         expected = write_file(path, cats, placeholders, header, spelling)
-        rc = {"exec": "encoding", "args": {"cats": cats, "placeholders": placeholders, "header": header, "spelling": spelling}}
+        if line_end != "crlf":
+            # the same records with Unix line ends and / or without the final line terminator (csv.writer's default is CRLF after every row)
+            with open(path, "rb") as f:
+                raw = f.read()
+            if "lf" in line_end:
+                raw = raw.replace(b"\r\n", b"\n")
+            if "nofinal" in line_end:
+                raw = raw.rstrip(b"\r\n")
+            with open(path, "wb") as f:
+                f.write(raw)
+        rc = {"exec": "encoding", "args": {"cats": cats, "placeholders": placeholders, "header": header, "spelling": spelling, "line_end": line_end}}
         ctx.current_case = rc
-        tags = {"header": header, "spelling": spelling, "has_empty": any(len(c) == 0 for c in cats),
+        tags = {"header": header, "spelling": spelling, "line_end": line_end, "has_empty": any(len(c) == 0 for c in cats),
                 "has_placeholder": any(p and not c for p, c in zip(placeholders, cats)), "n": min(len(cats), 6)}
         run_file(ctx, path, expected, rc, tags, wit=_WIT[0], full=full)
         ctx.count(1)
@@ -260,7 +270,8 @@ def run(ctx):
                         k += s
                     for header in (False, True):
                         for spelling in ("frac", "whole", "mixed"):
-                            ex_encoding(ctx, cats, ph, header, spelling, full=(n <= 3 or spelling == "frac"))
+                            ex_encoding(ctx, cats, ph, header, spelling, full=(n <= 3 or spelling == "frac"),
+                                        line_end=["crlf", "lf-nofinal", "lf", "crlf-nofinal"][(ci + header) % 4])
                     if ci % 211 == 0:
                         ctx.sample({"sizes": sizes, "placeholders": ph, "headers": "both", "spellings": ["frac", "whole", "mixed"]})
         _WIT[0] = None
@@ -283,7 +294,8 @@ def run(ctx):
                 s = int(r.integers(0, 4))
             cats.append([mk_event(r, i * 10 + q, hostile_id=(j % 4 == 0)) for q in range(s)])
         ph = [bool(r.uniform() < 0.4) for _ in range(n)]
-        ex_encoding(ctx, cats, ph, bool(j % 2), ["frac", "whole", "mixed"][j % 3], full=(n <= 30))
+        ex_encoding(ctx, cats, ph, bool(j % 2), ["frac", "whole", "mixed"][j % 3], full=(n <= 30),
+                    line_end=["crlf", "lf", "crlf-nofinal", "lf-nofinal"][j % 4])
         if j % 60 == 0:
             ctx.sample({"random_file": True, "n_catalogs": n, "sizes_head": [len(c) for c in cats[:12]], "placeholders_head": ph[:12]})
     # rejection
